@@ -75,10 +75,12 @@ CHECKS = {
     note="Trusted: rtc.mdl.ev/to_str (self-tested against Python evaluation). The parser (sympify/lambdify/str rewriting) is out of deductive reach.",
     technique="contract-based deductive verification of check_vname (pyvc, strings) + bounded contract checking of both evaluation paths against a tree evaluator", engine="pyvc", rtc=True),
  "C06": dict(
-    level=("exploration", "Bounded: the DataFrame returned by run() column by column (labels, one column per requested variable, values equal the "
-            "per-variable reference trajectory) for dict/list/wildcard requests, hierarchy, permuted node declarations, vectorize on/off; the same "
-            "paths in update_var.", "5 C06"),
-    note="Trusted: spec_fixed_step; documented label forms.", technique="bounded contract checking of run() outputs against per-variable spec trajectories", engine="rtc", rtc=True),
+    level=("other", "Deductive (small core): _get_indexed_var_str leaves a vectorised edge variable un-indexed exactly when its index list is the identity "
+            "selection (loop with break, every length). Bounded: the DataFrame returned by run() column by column (labels, one column per requested "
+            "variable, values equal the per-variable reference trajectory) for dict/list/wildcard requests, hierarchy, permuted node declarations, "
+            "vectorize on/off, after earlier runs of the same instance; the same paths in update_var.", "5 C06"),
+    note="Trusted: pyvc encoding, documented np.arange; spec_fixed_step; documented label forms. Path resolution (get_nodes, _relabel_var, _get_var_idx) is bounded only.",
+    technique="contract-based deductive verification of the index-selection helper (pyvc) + bounded contract checking of run() outputs against per-variable spec trajectories", engine="pyvc", rtc=True),
  "C07": dict(
     level=("exploration", "Bounded: sequences of update_var / node_values / edge updates on circuits with shared template objects; afterwards the "
             "compiled arguments, initial state and vector field must be those of the model with exactly the addressed nodes overridden.", "5 C07"),
